@@ -132,6 +132,86 @@ pub fn c14_str_eq(kind: Kind, t: &[u8], u: &str) -> Guard<Vec<(&'static str, boo
 	})
 }
 
+/// Comparison with a string that ALIASES the value's own buffer: the value parsed from the whole
+/// text against every proper prefix of that text taken as a `&str` of the same buffer, and every
+/// valid proper prefix parsed in place against the whole text. All must be unequal (the texts
+/// differ in length); a start-address shortcut would say equal. Returns the names that said equal.
+pub fn c14_aliased_str_eq(kind: Kind, t: &[u8]) -> Guard<(u64, Vec<String>)> {
+	let text = std::str::from_utf8(t).expect("utf8");
+	guard(|| {
+		let mut bad: Vec<String> = Vec::new();
+		let mut n = 0u64;
+		macro_rules! go {
+			($T:ident, $with_str:expr) => {{
+				let whole = $T::new(inp(t).unwrap()).ok().unwrap();
+				for k in 0..text.len() {
+					if !text.is_char_boundary(k) {
+						continue;
+					}
+					let pre: &str = &text[..k];
+					n += 1;
+					if *whole == pre {
+						bad.push(format!("{}(whole)==&str(prefix {k})", stringify!($T)));
+					}
+					if let Some(pin) = inp(&t[..k]) {
+						if let Ok(part) = $T::new(pin) {
+							n += 1;
+							if *part == text {
+								bad.push(format!("{}(prefix {k})==&str(whole)", stringify!($T)));
+							}
+						}
+					}
+				}
+				let _ = $with_str;
+			}};
+		}
+		macro_rules! go_str {
+			($T:ident) => {{
+				let whole = $T::new(inp(t).unwrap()).ok().unwrap();
+				for k in 0..text.len() {
+					if !text.is_char_boundary(k) {
+						continue;
+					}
+					let pre: &str = &text[..k];
+					n += 1;
+					if *whole == *pre {
+						bad.push(format!("{}(whole)==str(prefix {k})", stringify!($T)));
+					}
+					if let Some(pin) = inp(&t[..k]) {
+						if let Ok(part) = $T::new(pin) {
+							n += 1;
+							if *part == *text {
+								bad.push(format!("{}(prefix {k})==str(whole)", stringify!($T)));
+							}
+						}
+					}
+				}
+			}};
+		}
+		match kind {
+			Kind::Ri => {
+				go!(Ri, true);
+				go_str!(Ri);
+			}
+			Kind::RiRef => {
+				go!(RiRef, true);
+				go_str!(RiRef);
+			}
+			Kind::Path => {
+				go!(Path, true);
+				go_str!(Path);
+			}
+			Kind::Authority => go!(Authority, false),
+			Kind::Host => go!(Host, false),
+			Kind::UserInfo => go!(UserInfo, false),
+			Kind::Query => go!(Query, false),
+			Kind::Fragment => go!(Fragment, false),
+			_ => {}
+		}
+		(n, bad)
+	})
+}
+
 pub fn c14_input(kind: Kind, t: &[u8]) -> Value {
 	json!({"fam": fam_name(), "kind": kind.name(), "text": bytes_json(t)})
 }
@@ -160,6 +240,15 @@ pub fn c14_value_case(kind: Kind, t: &[u8], others: &[Vec<u8>], out: &mut Vec<Vi
 			}
 		}
 		Guard::Panic(pm) => out.push(mk("out", "panic").feat("panic_at", panic_site(&pm)).obs(format!("panic: {pm}")).exp("no panic")),
+	}
+	match c14_aliased_str_eq(kind, t) {
+		Guard::Ok((k, bad)) => {
+			n += k;
+			for name in bad {
+				out.push(mk("str-eq-aliased", "equal-to-a-string-of-another-length").obs(name).exp("plain text comparison: false"));
+			}
+		}
+		Guard::Panic(pm) => out.push(mk("str-eq-aliased", "panic").feat("panic_at", panic_site(&pm)).obs(format!("panic: {pm}")).exp("no panic")),
 	}
 	for u in others {
 		let us = match std::str::from_utf8(u) {
